@@ -23,7 +23,7 @@ from frequenz.quantities import Quantity
 from frequenz.sdk._internal._channels import ChannelRegistry
 from frequenz.sdk.microgrid._data_sourcing import ComponentMetricRequest
 from frequenz.sdk.timeseries import Sample
-from frequenz.sdk.timeseries.formula_engine._formula_engine import FormulaBuilder
+from frequenz.sdk.timeseries.formula_engine._formula_engine import FormulaBuilder, FormulaEngine3Phase
 from frequenz.sdk.timeseries.formula_engine._resampled_formula_builder import ResampledFormulaBuilder
 
 from .. import world
@@ -39,7 +39,8 @@ _GEN = (
     "Hypothesis-generated expression trees over input streams (repeats allowed), constants, + - * / and (API/builder routes) "
     "min max consumption production, realised by three routes: formula strings with minimal or redundant parentheses and random "
     "whitespace (from_string), the Python operator/method API over leaf FormulaEngines (each intermediate builder used once), and "
-    "FormulaBuilder tokens with per-stream nones_are_zeros; 3-6 timestamps delivered in lock-step on a virtual-time loop. "
+    "FormulaBuilder tokens with per-stream nones_are_zeros (incl. push_clipper), plus the composition API over three-phase "
+    "engines (each phase carries value + phase index, checked per phase); 3-6 timestamps delivered in lock-step on a virtual-time loop. "
 )
 RULE = {
     "C05": _GEN + "Values: small integers, zeros, negatives and floats |v| <= 1e6, all finite. Oracle: exact Fraction evaluation "
@@ -113,9 +114,11 @@ def _values(pid: str) -> st.SearchStrategy[Any]:
 
 @st.composite
 def _case(draw: Any, pid: str, max_depth: int) -> dict[str, Any]:
-    route = draw(st.sampled_from(["string", "string", "api", "api", "builder", "builder"]))
+    route = draw(st.sampled_from(["string", "string", "api", "api", "builder", "builder", "api3"]))
     depth = draw(st.integers(1, max_depth))
     tree = draw(_tree(depth, rich=route != "string", clip=route == "builder").filter(lambda t: t[0] != "s"))
+    if route == "api3" and _has_const(tree):
+        route = "api"  # the 3-phase operators take engines and builders only, no constants
     rows = draw(st.lists(st.lists(_values(pid), min_size=NSTREAMS, max_size=NSTREAMS), min_size=3, max_size=6))
     return {
         "route": route,
@@ -251,8 +254,57 @@ class _Rig:
 
     def __init__(self) -> None:
         self.senders: dict[int, Any] = {}
+        self.senders3: dict[int, list[Any]] = {}
         self.engine: Any = None
         self.keep: list[Any] = []
+
+
+def _build_api3(case: dict[str, Any], rig: _Rig) -> None:
+    """Composition API over 3-phase engines; stream i feeds three per-phase channels (value + phase index)."""
+    leaves: dict[int, Any] = {}
+    chans: dict[tuple[int, int], Any] = {}
+    senders3: dict[int, list[Any]] = {}
+
+    def leaf(i: int) -> Any:
+        if i not in leaves:
+            phases = []
+            senders3[i] = []
+            for ph in range(3):
+                chans[(i, ph)] = Broadcast(name=f"in{i}p{ph}")
+                senders3[i].append(chans[(i, ph)].new_sender())
+                b: Any = FormulaBuilder(f"leaf{i}p{ph}", Quantity)
+                b.push_metric(f"in{i}p{ph}", chans[(i, ph)].new_receiver(limit=100), nones_are_zeros=False)
+                phases.append(b.build())
+            leaves[i] = FormulaEngine3Phase(f"leaf{i}", Quantity, (phases[0], phases[1], phases[2]))
+        return leaves[i]
+
+    def fold(node: Any) -> Any:
+        op = node[0]
+        if op == "s":
+            return leaf(node[1])
+        if op == "cons":
+            return fold(node[1]).consumption()
+        if op == "prod":
+            return fold(node[1]).production()
+        left = fold(node[1])
+        right = fold(node[2])
+        if op == "+":
+            return left + right
+        if op == "-":
+            return left - right
+        if op == "*":
+            return left * right
+        if op == "/":
+            return left / right
+        if op == "max":
+            return left.max(right)
+        return left.min(right)
+
+    root = fold(case["tree"])
+    rig.keep += [leaves, chans]
+    rig.senders3 = senders3
+    rig.senders = {i: None for i in senders3}
+    rig.engine = root.build("top3", nones_are_zeros=case["global_zero"])
 
 
 def _children(node: Any) -> list[Any]:
@@ -346,6 +398,10 @@ def _build_api(case: dict[str, Any], rig: _Rig) -> None:
     rig.engine = root.build("top", nones_are_zeros=case["global_zero"])
 
 
+def _has_const(node: Any) -> bool:
+    return node[0] == "c" or any(_has_const(c) for c in _children(node))
+
+
 def _depth(node: Any) -> int:
     return 0 if node[0] in ("s", "c") else 1 + max(_depth(c) for c in _children(node))
 
@@ -395,13 +451,18 @@ def run_case(case: Any, pid: str) -> Verdict:
 
     async def scenario() -> None:
         rig = _Rig()
-        {"string": _build_string, "api": _build_api, "builder": _build_builder}[route](case, rig)
+        {"string": _build_string, "api": _build_api, "builder": _build_builder, "api3": _build_api3}[route](case, rig)
         rx = rig.engine.new_receiver()
         await world.settle(2)
         for k, row in enumerate(case["rows"]):
             ts = world.T0 + timedelta(seconds=k)
             for i in sorted(rig.senders):
-                await rig.senders[i].send(Sample(ts, _sample_value(row[i])))
+                if route == "api3":
+                    for ph in range(3):
+                        val = row[i] if isinstance(row[i], str) else row[i] + ph
+                        await rig.senders3[i][ph].send(Sample(ts, _sample_value(val)))
+                else:
+                    await rig.senders[i].send(Sample(ts, _sample_value(row[i])))
             await world.settle(3)
             got = []
             while True:
@@ -467,6 +528,28 @@ def run_case(case: Any, pid: str) -> Verdict:
         if zero_den:
             nt13 = True
         where = f"timestamp {k} values {[row[i] for i in sorted(used)]} (streams {sorted(used)})"
+        if route == "api3":
+            if len(got) != 1:
+                v.fail(f"{where}: {len(got)} three-phase samples emitted, expected exactly 1")
+                continue
+            for ph, pv in enumerate((got[0].value_p1, got[0].value_p2, got[0].value_p3)):
+                vals_p = [None if x is None else (x if (isinstance(row[i], str)) else x + ph) for i, x in enumerate(vals)]
+                try:
+                    PEAK[0] = Fr(0)
+                    want_p, mag_p, _ = _ref(tree, vals_p)
+                    mag_p = max(mag_p, PEAK[0])
+                except _Amb:
+                    continue
+                if mag_p > Fr(10) ** 300:
+                    continue
+                if want_p is None:
+                    if pv is not None:
+                        v.fail(f"{where}: phase {ph + 1} emitted {pv.base_value}, expected None")
+                elif pv is None:
+                    v.fail(f"{where}: phase {ph + 1} emitted None, expected {float(want_p)}")
+                elif abs(pv.base_value - float(want_p)) > 1e-9 * max(1.0, float(mag_p)):
+                    v.fail(f"{where}: phase {ph + 1} emitted {pv.base_value!r}, arithmetic value is {float(want_p)!r}")
+            continue
         if len(got) != 1:
             v.fail(f"{where}: {len(got)} samples emitted, expected exactly 1 "
                    f"(reference {'None' if want is None else float(want)})")
